@@ -26,6 +26,7 @@ Definition rsys := @sys rdev bytes.
 Definition can_op (s : rsys) : bool :=
   match s_pc s with
   | Write _ _ _ => true
+  | Requeue _ _ => true
   | Until _ _ _ => match s_reader s with RRun => negb (match s_queue s with [] => true | _ => false end) | _ => true end
   | _ => false
   end.
